@@ -1972,6 +1972,16 @@ void Router::markPolylineConnectorsNeedingReroutingForDeletedObstacle(
 
             }
 
+            // The point on the edge's line that minimises the distance
+            // start->point->end is found by reflection, which works with 
+            // the distances of start and end from the line.  These are
+            // signed here: when start and end lie on opposite sides of 
+            // the line (the removed obstacle sat between them) the signed 
+            // values gave a point far off the edge and an estimate that 
+            // was much too long, so the connector was never rerouted.
+            b = fabs(b);
+            d = fabs(d);
+
             double x;
             if ((b + d) == 0)
             {
